@@ -124,9 +124,16 @@ def run_property(pid: str, tier: str, seed: int) -> int:
     viol = 0
     lines = []
     if unlisted:
-        for f in unlisted[:3]:
+        for n_f, f in enumerate(unlisted[:3]):
+            if hasattr(mod, "minimise") and n_f == 0:
+                try:
+                    c2, d2 = mod.minimise(f["case"])
+                    if d2 is not None:
+                        f = dict(f, case=c2, detail=d2)
+                except Exception:
+                    pass
             p = F.write_replay(pid, {"property": pid, "kind": "failing-input", "case": f["case"],
-                                     "detail": f["detail"], "broken": [b["what"] for b in broken], "seed": seed})
+                                     "detail": f["detail"], "broken": sorted({b["what"] for b in broken}), "seed": seed})
             lines.append(f"VIOLATION property={pid} replay={p}")
         viol = len(unlisted)
     elif broken:
